@@ -236,6 +236,24 @@ class Interp:
                 return ('Err',)
             if m in ('map_err',):
                 return recv
+            if m == 'transpose' and isinstance(recv, tuple) and recv:
+                # Option<Result<T, E>> -> Result<Option<T>, E>
+                if recv[0] == 'None':
+                    return ('Ok', ('None',))
+                if recv[0] == 'Some' and isinstance(recv[1], tuple) and recv[1] and recv[1][0] == 'Ok':
+                    return ('Ok', ('Some', recv[1][1]))
+                if recv[0] == 'Some' and isinstance(recv[1], tuple) and recv[1] and recv[1][0] == 'Err':
+                    return recv[1]
+                raise Undecided('transpose of %r' % (recv,))
+            if m in ('is_some_and', 'is_ok_and') and isinstance(recv, tuple) and recv:
+                if recv[0] in ('Some', 'Ok'):
+                    return self.apply(args[0], [recv[1]], depth)
+                if recv[0] in ('None', 'Err'):
+                    return False
+            if m in ('is_some', 'is_ok') and isinstance(recv, tuple) and recv and recv[0] in ('Some', 'None', 'Ok', 'Err'):
+                return recv[0] in ('Some', 'Ok')
+            if m in ('is_none', 'is_err') and isinstance(recv, tuple) and recv and recv[0] in ('Some', 'None', 'Ok', 'Err'):
+                return recv[0] in ('None', 'Err')
             if m in ('ok',) and isinstance(recv, tuple):
                 return ('Some', recv[1]) if recv[0] == 'Ok' else ('None',)
             if m == 'unwrap_or' and isinstance(recv, tuple):
